@@ -160,7 +160,7 @@ def main():
                            "range": list(ranges[l.name])})
           # the sample-based front ends: "sampled" sizes from the observed outputs, "conservative" derives the
           # ranges from the sample and runs the weight-based estimator
-          if pname in ("maxmax", "rand"):
+          if pname in ("maxmax", "rand") and (j // nshards) % 2 == 0:
             for mode in ("sampled", "conservative"):
               sz = estimate.analyze_accumulator_from_sample(model, xin.astype(np.float32), mode=mode)
               for l, pre in zip(lays, outs[1:]):
